@@ -81,6 +81,7 @@ def _replay(lines, families, lockstep, repo, procs=16, asrt=False):
     for r in parts:
         for k in ("n", "same", "dropped"):
             tot[k] += r[k]
+        tot["recursion_limit"] = tot.get("recursion_limit", 0) + r.get("recursion_limit", 0)
         tot["attention"] += r["attention"]
         tot["lockstep_diff"] += r["lockstep_diff"]
         for f, k in r["per_kind"].items():
@@ -177,6 +178,8 @@ def judge_attention(outcomes, cap=4000):
 def classify(outcomes, res, prop):
     for out in outcomes:
         res.replayed += out["n"]
+        if out.get("recursion_limit"):
+            res.extra["replays_skipped_at_the_interpreters_recursion_limit"] = res.extra.get("replays_skipped_at_the_interpreters_recursion_limit", 0) + out["recursion_limit"]
         for att in out["attention"]:
             v = att.get("verdict")
             if v is None:
